@@ -404,3 +404,72 @@ func Unspill(v ssa.Value) ssa.Value {
 	}
 	return v
 }
+
+// StructLit returns the rendered field values of a struct value built from a composite literal:
+// either a load of a local Alloc whose fields are stored, or the Alloc itself. ok=false otherwise.
+func StructLit(v ssa.Value) (map[string]ssa.Value, bool) {
+	var al *ssa.Alloc
+	switch x := v.(type) {
+	case *ssa.UnOp:
+		if x.Op == token.MUL {
+			al, _ = x.X.(*ssa.Alloc)
+		}
+	case *ssa.Alloc:
+		al = x
+	}
+	if al == nil {
+		return nil, false
+	}
+	out := map[string]ssa.Value{}
+	for _, ref := range *al.Referrers() {
+		fa, ok := ref.(*ssa.FieldAddr)
+		if !ok {
+			continue
+		}
+		for _, r2 := range *fa.Referrers() {
+			if st, ok := r2.(*ssa.Store); ok && st.Addr == ssa.Value(fa) {
+				out[FieldOf(fa).Name()] = st.Val
+			}
+		}
+	}
+	return out, true
+}
+
+// SliceElems reconstructs the elements of a slice literal / variadic argument list:
+// go/ssa lowers []T{a, b} to `new [N]T`, IndexAddr+Store per element, and a Slice of the array.
+func SliceElems(v ssa.Value) ([]ssa.Value, bool) {
+	sl, ok := v.(*ssa.Slice)
+	if !ok || sl.Low != nil || sl.High != nil {
+		return nil, false
+	}
+	al, ok := sl.X.(*ssa.Alloc)
+	if !ok {
+		return nil, false
+	}
+	arr, ok := Deref(al.Type()).Underlying().(*types.Array)
+	if !ok {
+		return nil, false
+	}
+	out := make([]ssa.Value, arr.Len())
+	for _, ref := range *al.Referrers() {
+		ia, ok := ref.(*ssa.IndexAddr)
+		if !ok {
+			continue
+		}
+		idx, ok := ConstInt(ia.Index)
+		if !ok || idx < 0 || idx >= arr.Len() {
+			return nil, false
+		}
+		for _, r2 := range *ia.Referrers() {
+			if st, ok := r2.(*ssa.Store); ok && st.Addr == ssa.Value(ia) {
+				out[idx] = st.Val
+			}
+		}
+	}
+	for _, e := range out {
+		if e == nil {
+			return nil, false
+		}
+	}
+	return out, true
+}
